@@ -1,5 +1,5 @@
 """C06 — norms, inner products and statistics equal their dense definitions (oracle search on the real code)."""
-import itertools, random
+import itertools, random, math
 import numpy as np, torch
 import core
 from core import PT, gen_tensor, gen_shape, tn, safe, close
@@ -466,17 +466,23 @@ def run_moment(ctx, case, J):
             return None
         return verify
 
+    TINY = "the k-fold Hadamard power rounded inside hadamard_sum has norm < 1e-12 (absolute zero threshold 1e-13 of truncated_svd)"
+
+    def tiny(xc, k):
+        wk = w if margs is not None else np.ones(x.shape)
+        return [(TINY, k >= 2 and 0 < float(np.linalg.norm(xc ** (k - 1) * (xc * wk))) < 1e-12)]
+
     for k in (1, 2, 3):
         exp = float(np.sum(w * x ** k))
         scale = float(np.sum(w * ad ** k))
         J.check("raw_moment", "raw_moment(t %s, k=%d%s)" % (list(t.shape), k, ", marginals" if margs else ""),
-                lambda k=k: tn.raw_moment(t.to_tn(), k, **kw()), rel(exp, scale), feats)
+                lambda k=k: tn.raw_moment(t.to_tn(), k, **kw()), rel(exp, scale), tiny(x, k) + feats)
     if var > 1e-8 * float(np.sum(w * (ad + abs(mu)) ** 2)) and var > 0:
         for k in (1, 2, 3):
             exp = float(np.sum(w * (x - mu) ** k)) / var ** (k / 2.0)
             scale = float(np.sum(w * (ad + np.sum(w * ad)) ** k)) / var ** (k / 2.0)
             J.check("normalized_moment", "normalized_moment(t %s, k=%d%s)" % (list(t.shape), k, ", marginals" if margs else ""),
-                    lambda k=k: tn.normalized_moment(t.to_tn(), k, **kw()), rel(exp, scale), feats)
+                    lambda k=k: tn.normalized_moment(t.to_tn(), k, **kw()), rel(exp, scale), tiny(x - mu, k) + feats)
     else:
         ctx.count("skipped:normalized_moment-constant")
 
@@ -561,3 +567,68 @@ def run_corr(ctx, case, J):
     md = PT([np.asarray(c, dtype=np.float64) for c in m.cores], [None if U is None else np.asarray(U, dtype=np.float64) for U in m.Us]).dense()
     if md.shape != exp.shape or not close(md, exp, 1e-9)[0]:
         ctx.spec("model %s differs from the dense sum" % op, case)
+
+
+# =============================================================================== tensors too large to decompress (main session)
+# "equal the same quantities computed on the decompressed arrays": for separable (rank-1) tensors every statistic has a closed form in
+# the per-mode vectors, so the clause can be checked where TT is actually used — arrays with more than 2^63 virtual entries.
+def _huge_cases(rng, tier):
+    n = {"quick": 12, "thorough": 120, "search": 40}[tier]
+    out = []
+    for _ in range(n):
+        shp = rng.choice([[60000] * 4, [50000, 70000, 40000, 90000], [10] * 20, [3000] * 6])
+        out.append({"kind": "huge", "shape": shp, "seed": rng.randrange(1 << 30), "stream": "float", "dd": "float64", "fmt": rng.choice(["tt", "cp"])})
+    return out
+
+
+_orig_cases2 = cases
+
+
+def cases(rng, tier):  # noqa: F811
+    return _orig_cases2(rng, tier) + _huge_cases(rng, tier)
+
+
+def run_huge(ctx, case, J):
+    import random as _r
+    rng = _r.Random(case["seed"])
+    shp = case["shape"]
+    N = len(shp)
+
+    def mk():
+        vs = []
+        for s in shp:
+            g = np.random.default_rng(rng.randrange(1 << 30))
+            vs.append(g.uniform(0.5, 1.5, size=s) * rng.choice([1.0, -1.0]))
+        if case["fmt"] == "tt":
+            t = tn.Tensor([torch.tensor(v)[None, :, None] for v in vs])
+        else:
+            t = tn.Tensor([torch.tensor(v)[:, None] for v in vs])
+        return vs, t
+    va, a = mk()
+    vb, b = mk()
+    numel = float(np.prod([float(s) for s in shp]))
+    ctx.case(("huge", tuple(shp), case["fmt"], case["seed"]), True, {"op": "var/std/rmse/moments of rank-1 tensors with %.3g virtual entries" % numel,
+                                                                     "shape": shp, "format": case["fmt"]})
+    ctx.count("huge:" + ("over 2^63 entries" if numel > 2 ** 63 else "below 2^63 entries"))
+    mean_a = float(np.prod([v.mean() for v in va]))
+    m2_a = float(np.prod([(v * v).mean() for v in va]))
+    var_a = m2_a - mean_a ** 2
+    # ||a-b||^2 / numel = E[a^2] + E[b^2] - 2 E[ab]
+    m2_b = float(np.prod([(v * v).mean() for v in vb]))
+    mab = float(np.prod([(u * v).mean() for u, v in zip(va, vb)]))
+    rmse_ab = math.sqrt(max(m2_a + m2_b - 2 * mab, 0.0))
+    checks = [("mean", lambda: tn.mean(a), mean_a), ("var", lambda: tn.var(a), var_a), ("std", lambda: tn.std(a), math.sqrt(max(var_a, 0.0))),
+              ("rmse", lambda: tn.rmse(a, b), rmse_ab)]
+    # (raw/normalised moments build I x I diagonal cores inside hadamard_sum: not feasible for modes of size 60000; they share numel())
+    for name, fn, want in checks:
+        r = safe(fn)
+        if r[0] == "err":
+            ctx.oracle("%s of a rank-1 tensor of shape %s raised %s: %s" % (name, shp, r[1], r[2]), case,
+                       cls={"op": name, "predicate": "tensor too large to decompress"}); continue
+        got = float(r[1])
+        # var/rmse are differences of O(1) moments of the order of their own size: relative 1e-6 of the second moment is ample
+        tol = 1e-6 * max(abs(want), m2_a, 1e-300)
+        if not (abs(got - want) <= tol):
+            ctx.oracle("%s of a rank-1 tensor of shape %s (%.3g virtual entries): %r, closed form %r" % (name, shp, numel, got, want), case,
+                       cls={"op": name, "predicate": "tensor too large to decompress"})
+    ctx.count("huge: statistics checked")
